@@ -61,6 +61,8 @@ type Case struct {
 	// s4
 	Work []string `json:"work,omitempty"` // per routine: defvar | defun | generic | print | lambda
 	// schedule
+	// HoldPct: see sched.Config.HoldPct
+	HoldPct int `json:"hold_pct,omitempty"`
 	Policy      string `json:"policy"`
 	SwitchPct   int    `json:"switch_pct"`
 	YieldPct    int    `json:"yield_pct"`
@@ -230,6 +232,7 @@ func (e *engine) Generate(seed uint64, idx int, tier string, avoid []harness.Fin
 		c.TimeJumpPct = []int{1, 5}[r.Intn(2)]
 	}
 	c.Procs = []int{1, 1, 2, 4, 16}[r.Intn(5)]
+	c.HoldPct = []int{0, 0, 25, 60}[r.Intn(4)]
 	b, _ := json.Marshal(c)
 	return b
 }
@@ -691,7 +694,7 @@ func (c *Case) exec(main string, setup string, sfx string, solo bool) runOut {
 		tp = tape.New(c.TapeSeed)
 	}
 	size := c.P*c.N*(1+len(c.Cons)) + c.R*c.Iter + 3*len(c.Work) + 4
-	cfg := sched.Config{Policy: c.Policy, SwitchPct: c.SwitchPct, YieldPct: c.YieldPct, PCTDepth: c.PCTDepth,
+	cfg := sched.Config{HoldPct: c.HoldPct, Policy: c.Policy, SwitchPct: c.SwitchPct, YieldPct: c.YieldPct, PCTDepth: c.PCTDepth,
 		PCTHorizon: 400 * size, TimeJumpPct: c.TimeJumpPct, Salt: c.Salt, Budget: 4000*size + 60000}
 	var out runOut
 	intTask, intDone, intCalls, guarded := -1, false, 0, false
